@@ -160,7 +160,7 @@ fn merge_is_join(n_newer: usize, n_older: usize) {
         }
         id += 1;
     }
-    kani::cover!(rmap.len() == n_newer + n_older && n_newer + n_older <= 3, "disjoint sessions after merge");
+    kani::cover!(rmap.len() == 3, "three distinct sessions after merge");
     kani::cover!(newer.map.len() == 1 && older_map.len() == 2 && rmap.len() == 1, "some merged or trimmed");
 }
 
